@@ -17,9 +17,10 @@ structure UC where
   digit : Char → Bool          -- `\d`
   word : Char → Bool           -- `\w`
   upperOf : Char → List Char   -- `str.upper()` of the one-character string
+  digitOf : Char → Nat         -- `int(ch)` of a non-ASCII `\d` character (what `float()` reads it as)
 
 /-- the world in which no non-ASCII character is a digit or a word character -/
-def UC.ascii : UC := ⟨fun _ => false, fun _ => false, fun c => [c]⟩
+def UC.ascii : UC := ⟨fun _ => false, fun _ => false, fun c => [c], fun _ => 0⟩
 
 def isAsciiDigit (c : Char) : Bool := decide (48 ≤ c.toNat) && decide (c.toNat ≤ 57)
 def isAsciiUpper (c : Char) : Bool := decide (65 ≤ c.toNat) && decide (c.toNat ≤ 90)
@@ -52,7 +53,8 @@ def hexChar : Nat → Char
   | 0 => '0' | 1 => '1' | 2 => '2' | 3 => '3' | 4 => '4' | 5 => '5' | 6 => '6' | 7 => '7'
   | 8 => '8' | 9 => '9' | 10 => 'a' | 11 => 'b' | 12 => 'c' | 13 => 'd' | 14 => 'e' | _ => 'f'
 
-/-- value of an ASCII decimal digit -/
+/-- value of an ASCII decimal digit (ONLY of those: for the other `\\d` characters the code point minus 48 is not the digit's
+    value; wherever such a character can occur -- the FRACTION rule -- `UC.dval` below is used) -/
 def digitVal (c : Char) : Nat := c.toNat - 48
 
 /-- value of an ASCII hexadecimal digit (either case) -/
@@ -91,6 +93,12 @@ def intText (z : Int) : Text :=
 
 /-- value of a text of ASCII digits (`int(text)` on such a text; leading zeros allowed) -/
 def natOfText (t : Text) : Nat := ofDigits (t.map digitVal)
+
+/-- the value of a `\d` character as `float()` reads it: ASCII digits by their code, the others (Arabic-Indic, NKo, …
+    digits, which the FRACTION rule `(\d+)(\.\d+)` lets through) by Python's Unicode table -/
+def UC.dval (u : UC) (c : Char) : Nat := if c.toNat < 128 then digitVal c else u.digitOf c
+
+def UC.natOf (u : UC) (t : Text) : Nat := ofDigits (t.map u.dval)
 
 def hexOfText (t : Text) : Nat := ofDigitsB 16 (t.map hexVal)
 
